@@ -191,12 +191,18 @@ def globalsGrow : StepRel where
         cases i with
         | zero => simpa using hi
         | succ n => simpa using ih _ hr n (by simpa using hi)
-  frames := by
-    intro ls rt rt' ⟨hs, hp⟩
-    refine ⟨shapeRel.frames ls rt rt' hs, ?_⟩
+  framePlain := by
+    intro d0 rt rt' ⟨hs, hp⟩
+    refine ⟨shapeRel.framePlain d0 rt rt' hs, ?_⟩
     intro i g k hi hk
-    obtain ⟨g', hg', hk'⟩ := hp (ls.length + i) g k (by simp [List.getElem?_append_right, hi]) hk
-    exact ⟨g', by simpa [List.getElem?_drop] using hg', hk'⟩
+    obtain ⟨g', hg', hk'⟩ := hp (i + 1) g k (by simpa using hi) hk
+    exact ⟨g', by simpa [List.getElem?_drop, Nat.add_comm] using hg', hk'⟩
+  frameSandbox := by
+    intro root rt rt' ⟨hs, hp⟩
+    refine ⟨shapeRel.frameSandbox root rt rt' hs, ?_⟩
+    intro i g k hi hk
+    obtain ⟨g', hg', hk'⟩ := hp (i + 2) g k (by simpa using hi) hk
+    exact ⟨g', by simpa [List.getElem?_drop, Nat.add_comm] using hg', hk'⟩
 
 /-- **A bound name stays bound for the rest of the render**: whatever is rendered afterwards
 (any template, any outcome), a global frame still binds every name it bound before. -/
